@@ -177,8 +177,8 @@ class C13Src(SrcWorld):
         out["pre_m"] = dict(st.m)
         m["t"] = m["t"] + (out.get("dt", 0) if ev[0] in ("expire", "advance") else 0)
         out["t_entry"] = m["t"]
-        if self.emitted(out, "EOF"):
-            m["eof"] = True
+        if self.emitted(out, "EOF") or (self.c["md_only"] and self.emitted(out, "MD")):
+            m["eof"] = True  # the wait for the Finished PDU starts (a metadata-only transfer has no EOF PDU)
             m["t"] = 0
         if self.idle(st) and m["eof"]:
             m["done"] = True
@@ -200,6 +200,10 @@ class C13Src(SrcWorld):
             return v
         if ev[0] == "advance":
             return v
+        if out["post_step"] == "WAITING_FOR_FINISHED":
+            from xmc import clock
+            if clock.next_expiry(st.S.h) is None:
+                bad("C13.sender_no_check_timer", "the sender waits for the Finished PDU of an unacknowledged transfer with closure but no check timer is running")
         waiting = out["pre_step"] == "WAITING_FOR_FINISHED" and pre["eof"]
         if waiting and out["t_entry"] >= CHECK_MS and ev[0] != "fin":
             if len(clr) != 1:
@@ -230,6 +234,7 @@ def configs(tier):
         dst.append(dict(mode="unack", size=L + 1, seg=L, check_limit=cl, closure=closure, cks="crc32", max_tx=2))
     for size in (0, 3):
         src.append(dict(mode="unack", closure=True, size=size, seg=L))
+    src.append(dict(mode="unack", closure=True, size=0, md_only=True))
     return dst, src
 
 
